@@ -13,6 +13,11 @@ def load_known():
         return json.load(fh).get('findings', [])
 
 
+def is_open_known(prop, key):
+    """True iff key names an OPEN known finding of prop (those are suppressed; everything else is replayed and reported)"""
+    return key is not None and any(k.get('property') == prop and k.get('key') == key and k.get('status', 'open') == 'open' for k in load_known())
+
+
 class Violation:
     def __init__(self, prop, key, what, scenario=None, obligation=None):
         self.prop = prop
